@@ -32,6 +32,7 @@ type env struct {
 	overlay map[string]string
 	goEnv   []string
 	mu      sync.Mutex
+	prior   map[string][]byte // output of the shipped api schema: what an output directory holds before a regeneration
 }
 
 func main() {
@@ -142,6 +143,12 @@ func (e *env) setup() {
 	if out, err := e.sh(filepath.Join(e.repo, "internal/cmd/tlgen"), nil, "go", "build", "-overlay", ovPath, "-o", e.tlgen, "."); err != nil {
 		vr.HarnessError("building tlgen from the working tree: %v\n%s", err, out)
 	}
+	pd := filepath.Join(e.scratch, "prior")
+	os.MkdirAll(pd, 0o755)
+	if _, err := e.sh(e.scratch, []string{"VERIF_MAP_PERM=0"}, e.tlgen, filepath.Join(e.repo, "schemes", "api_latest.tl"), pd); err == nil {
+		e.prior = readDir(pd)
+	}
+	os.RemoveAll(pd)
 }
 
 func names(fs []feature) []string {
@@ -232,6 +239,12 @@ func (e *env) one(fs []feature, verbose bool) {
 		}
 	}
 	reached = true
+	// ---- generated again over the output of an earlier, bigger schema (the shipped one)
+	if e.prior != nil {
+		if !e.regenerate(filepath.Join(dir, "regen"), schemaFile, e.prior, first, "generated into a directory holding the output of the shipped schema", viol) {
+			return
+		}
+	}
 	// ---- compile + reflect
 	dump, out, err := e.compileAndProbe(dir, id, first)
 	if err != nil {
@@ -572,6 +585,42 @@ func keys(m map[uint32]bool) []uint32 {
 
 // shipped: the generator's own input must be accepted end to end; the other schemes/ files only need a
 // total parser.
+// readDir returns the regular files of a directory by name.
+func readDir(dir string) map[string][]byte {
+	files := map[string][]byte{}
+	es, _ := os.ReadDir(dir)
+	for _, en := range es {
+		b, _ := os.ReadFile(filepath.Join(dir, en.Name()))
+		files[en.Name()] = b
+	}
+	return files
+}
+
+// regenerate runs the generator for schemaFile into a directory that already holds the files `prior` (the output of
+// an earlier generation, as when `go generate` is run again after the schema changed) and compares the result with
+// `want`, the output of the same schema into an empty directory.
+func (e *env) regenerate(work, schemaFile string, prior, want map[string][]byte, what string, viol func(stage, what string)) bool {
+	os.RemoveAll(work)
+	os.MkdirAll(work, 0o755)
+	defer os.RemoveAll(work)
+	for n, b := range prior {
+		os.WriteFile(filepath.Join(work, n), b, 0o644)
+	}
+	o, err := e.sh(filepath.Dir(work), []string{"VERIF_MAP_PERM=0"}, e.tlgen, schemaFile, work)
+	if err != nil {
+		viol("regenerate|generate|"+vr.MsgClass(firstLine(o)), what+": tlgen fails: "+firstLine(o))
+		return false
+	}
+	got := readDir(work)
+	for n, b := range want {
+		if !bytes.Equal(b, got[n]) {
+			viol("regenerate|differs-from-fresh-output|"+n, fmt.Sprintf("%s: %s (%d bytes) differs from the file generated into an empty directory (%d bytes)", what, n, len(got[n]), len(b)))
+			return false
+		}
+	}
+	return true
+}
+
 func (e *env) shipped() {
 	run := e.run
 	ents, _ := os.ReadDir(filepath.Join(e.repo, "schemes"))
@@ -638,6 +687,30 @@ func (e *env) shipped() {
 			}
 		}
 	}
+	// regeneration histories over the shipped api schemas: B into the directory that holds A's output == B fresh
+	inputReal, _ := filepath.EvalSymlinks(filepath.Join(e.repo, "schemes", input))
+	nre := 0
+	for _, en := range ents {
+		other := filepath.Join(e.repo, "schemes", en.Name())
+		if real, _ := filepath.EvalSymlinks(other); !strings.HasPrefix(en.Name(), "api_") || !strings.HasSuffix(en.Name(), ".tl") || real == inputReal || real != other {
+			continue
+		}
+		fresh := filepath.Join(dir, "fresh-"+en.Name())
+		os.MkdirAll(fresh, 0o755)
+		if o, err := e.sh(dir, []string{"VERIF_MAP_PERM=0"}, e.tlgen, other, fresh); err != nil {
+			run.Count("regeneration_histories_skipped_generator_refuses_"+en.Name(), 1)
+			_ = o
+			continue
+		}
+		fo := readDir(fresh)
+		os.RemoveAll(fresh)
+		nre += 2
+		run.Eval("regenerate "+en.Name()+" over "+input, true)
+		e.regenerate(filepath.Join(dir, "regen"), other, first, fo, en.Name()+" generated into the directory holding the output of "+input, viol)
+		run.Eval("regenerate "+input+" over "+en.Name(), true)
+		e.regenerate(filepath.Join(dir, "regen"), filepath.Join(e.repo, "schemes", input), fo, first, input+" generated into the directory holding the output of "+en.Name(), viol)
+	}
+	run.Set("regeneration_histories_over_shipped_schemas", nre)
 	dump, out, err := e.compileAndProbe(dir, 0, first)
 	if err != nil {
 		viol("compile|"+compileClass(out), "the generated package does not compile: "+firstLines(out, 3))
